@@ -160,8 +160,8 @@ template <typename T> inline bool same(T a, T b) {
     return a == b || (isnan_(a, std::is_floating_point<T>{}) && isnan_(b, std::is_floating_point<T>{}));
 }
 template <typename T> inline std::string vstr(T v, std::false_type) { return vf::int_str(v); }
-template <typename T> inline std::string vstr(T v, std::true_type) {
-    char b[64]; std::snprintf(b, sizeof b, "%a", (double)v); return b;
+template <typename T> inline std::string vstr(T v, std::true_type) {   // shortest exact decimal form
+    char b[64]; std::snprintf(b, sizeof b, sizeof(T) == 4 ? "%.9g" : "%.17g", (double)v); return b;
 }
 template <typename T> inline std::string vstr(T v) { return vstr(v, std::is_floating_point<T>{}); }
 
